@@ -34,6 +34,15 @@ async def main():
             back = cache.read()
             if len(back) != 2:
                 return True, f'wrote transfers {a} and {b}, read back {[(t.username, t.remote_path) for t in back]}', {'transfers': [a, b]}
+        # reasons survive as written, also the empty string (a peer may refuse with an empty reason: the download is not retried)
+        for fr, ar in (('', None), (None, ''), ('Queued', 'Requested')):
+            t = Transfer('bob', 'f', TransferDirection.DOWNLOAD)
+            t.state = ST.FailedState(t) if ar is None else ST.AbortedState(t)
+            t.fail_reason, t.abort_reason = fr, ar
+            t2 = pickle.loads(pickle.dumps(t))
+            want_ar = ar
+            if (t2.fail_reason, t2.abort_reason) != (fr, want_ar):
+                return True, f'fail_reason={fr!r} abort_reason={ar!r} pickled and loaded as fail_reason={t2.fail_reason!r} abort_reason={t2.abort_reason!r}', {'reasons': [fr, ar]}
         # pickling every state and repairing it on load
         for S in (ST.QueuedState, ST.InitializingState, ST.DownloadingState, ST.CompleteState, ST.AbortedState, ST.PausedState, ST.FailedState, ST.IncompleteState):
             for done in (True, False):
